@@ -62,6 +62,8 @@ def run(ck):
     nscn = 0
     outcomes = collections.Counter()
 
+    int_share = 0.3
+
     def replay(graph, label, limit, dask_share=1.0):
         nonlocal nscn
         groups = sorted(graph.values(), key=lambda g: repr(g["s"]))
@@ -69,11 +71,15 @@ def run(ck):
             groups = rng.sample(groups, limit)
         for g in groups:
             modes = ["dask"] if len(g["s"]["comp"]) > 1 else ([None, "dask"] if rng.random() < dask_share else [None])
-            for mode in modes:
-                for init, verdict, detail in km.walk(em, g, dask_mode=mode):
+            runs = [(mode, None, None) for mode in modes]
+            if rng.random() < int_share:
+                # the same scenario scaled by 50 and stored as 8-bit integers (per-cluster sums exceed 255)
+                runs.append((modes[-1] if rng.random() < 0.5 else modes[0], km.Transform(scale=50.0), "uint8"))
+            for mode, tf, dt in runs:
+                for init, verdict, detail in km.walk(em, g, tf=tf, dask_mode=mode, dtype=dt):
                     nscn += 1
                     ck.replayed += 1
-                    ck.seen([label, g["s"], init, mode])
+                    ck.seen([label, g["s"], init, mode, dt])
                     outcomes[verdict if verdict in ("ok", "left-domain", "skip") else "violation"] += 1
                     if verdict in ("ok", "left-domain", "skip"):
                         if verdict == "ok":
@@ -82,7 +88,8 @@ def run(ck):
                         continue
                     ck.violation("M2:KMeans:" + verdict,
                                  {"mechanism": "M2", "module": "KMeans", "scenario": g["s"], "init": init,
-                                  "input": mode or "numpy", "detail": detail})
+                                  "input": mode or "numpy", "dtype": dt or "float64",
+                                  "transform": tf.describe() if tf else None, "detail": detail})
 
     replay(g_num, "1d", 40 if quick else 0)
     replay(g_stop, "stop", 0, dask_share=0.15 if quick else 1.0)
@@ -107,6 +114,8 @@ def m3(ck, em, rng, ntraces):
         X = r.normal(size=(n, d)) * r.uniform(0.5, 3) + r.normal(size=(k, d))[r.randint(0, k, size=n)] * 4
         if r.rand() < 0.2:
             X = np.round(X)          # duplicates and ties
+        elif r.rand() < 0.25:
+            X = np.clip(np.round(X * 20 + 120), 0, 255).astype(np.uint8)     # 8-bit data
         method = "random" if r.rand() < 0.5 else "k-means||"
         cap = int(r.randint(1, 8))
         thr = [None, 0.0, 1e-5, 1e-2, 0.3][r.randint(0, 5)]
@@ -138,7 +147,7 @@ def m3(ck, em, rng, ntraces):
                 return float("nan")
             mm = em.KMeansMachine(k)
             mm.centroids_ = c
-            return float(np.asarray(mm.transform(X)).min(axis=0).mean())
+            return float(np.asarray(mm.transform(np.asarray(X, dtype=float))).min(axis=0).mean())
         D = [distortion(c) for c in cents]
         rk = traces.ranks(D)
         crits = [float("inf")] + [float(m.average_min_distance) for m in traj]
@@ -148,7 +157,7 @@ def m3(ck, em, rng, ntraces):
         for i in range(1, cap + 1):
             mm = em.KMeansMachine(k)
             mm.centroids_ = cents[i - 1]
-            emptied = np.all(np.isfinite(cents[i - 1])) and len(set(np.asarray(mm.predict(X)).tolist())) < k
+            emptied = np.all(np.isfinite(cents[i - 1])) and len(set(np.asarray(mm.predict(np.asarray(X, dtype=float))).tolist())) < k
             bad = not np.all(np.isfinite(cents[i - 1]))
             rel = traces.rel_change(crits[i - 1], crits[i], thr) if i > 1 else "na"
             # the criterion reported at iteration i must be the distortion of the centroids entering it
